@@ -503,9 +503,29 @@ def rule_dispatch(P) -> RuleResult:
         raise AnalysisError('anchor vanished: DispatchingShell.onecmd / parseline')
     # the legacy command set
     legacy = None
+
+    def const_set(e, depth=0):
+        if isinstance(e, (ast.Set, ast.List, ast.Tuple)) and e.elts and all(isinstance(x, ast.Constant) and isinstance(x.value, str) for x in e.elts):
+            return {x.value for x in e.elts}
+        if isinstance(e, ast.Call) and unparse(e.func) in ('frozenset', 'set', 'tuple', 'list') and len(e.args) == 1:
+            return const_set(e.args[0], depth)
+        if isinstance(e, ast.Constant) and isinstance(e.value, str) and ' ' in e.value:
+            return None
+        if isinstance(e, ast.Call) and isinstance(e.func, ast.Attribute) and e.func.attr == 'split' and isinstance(e.func.value, ast.Constant):
+            return set(e.func.value.value.split(*[a.value for a in e.args if isinstance(a, ast.Constant)]))
+        if depth < 2 and isinstance(e, ast.Name) and e.id in sh.assigns:
+            return const_set(sh.assigns[e.id], depth + 1)
+        if depth < 2 and isinstance(e, ast.Attribute) and isinstance(e.value, ast.Name) and e.value.id in ('self', 'cls'):
+            for k in sh.classes.values():
+                if e.attr in k.attrs:
+                    return const_set(k.attrs[e.attr], depth + 1)
+        return None
+    # the collection of bare command names: the container of the membership test in onecmd (inline or a module / class constant)
     for n in ast.walk(oc.node):
-        if isinstance(n, ast.Set) and all(isinstance(e, ast.Constant) for e in n.elts):
-            legacy = {e.value for e in n.elts}
+        if isinstance(n, ast.Compare) and len(n.ops) == 1 and isinstance(n.ops[0], (ast.In, ast.NotIn)):
+            cs = const_set(n.comparators[0])
+            if cs is not None:
+                legacy = cs
     if legacy is None:
         raise AnalysisError('legacy command set of onecmd not found')
     from .compiler_rules import grammar_classes
@@ -562,7 +582,8 @@ def rule_dispatch(P) -> RuleResult:
                         st[t.id] = x
                     return st
                 return super().stmt(s, st)
-        mach = M(call=callh, contains=lambda l, c, st, _l=is_legacy: _l, names={'self': finite.Sym('self'), oc.params[1]: finite.Sym('line')},
+        mach = M(call=callh, contains=lambda l, c, st, _l=is_legacy: _l,
+                 names={**{k: finite.Sym(k) for k in sh.assigns}, 'self': finite.Sym('self'), oc.params[1]: finite.Sym('line')},
                  expr=lambda e, st, mm: finite.Sym(unparse(e)))
         try:
             mach.run(body_without_docstring(oc.node), {})
